@@ -52,8 +52,8 @@ func (c c33ctx) seedKey() string {
 	return fmt.Sprintf("t=%d n=%d round=%d tc=%d prev=%d", c.T, c.N, c.Round, c.TC, c.PrevSeed)
 }
 
-var c33Families = []string{"other-key", "other-prev-seed", "other-tc-mislabelled", "other-tc-cached", "undecodable"}
-var c33Outsider = map[string]string{"other-key": "own-key", "other-prev-seed": "zero-sig", "other-tc-mislabelled": "own-key", "other-tc-cached": "zero-sig", "undecodable": "own-key"}
+var c33Families = []string{"other-key", "other-prev-seed", "other-tc-mislabelled", "other-tc-cached", "undecodable", "other-round"}
+var c33Outsider = map[string]string{"other-key": "own-key", "other-prev-seed": "zero-sig", "other-tc-mislabelled": "own-key", "other-tc-cached": "zero-sig", "undecodable": "own-key", "other-round": "zero-sig"}
 
 type c33letter struct {
 	Party int    // index into parties; -1 = outsider
@@ -158,8 +158,11 @@ func c33() {
 		}
 	}
 	report(run, t)
-	run.Rule = "for (t,n) in {(2,3),(3,4)} x contexts (round, timeout count, previous seed, verifying miner) x 5 invalid-share families: all sequences of exactly L messages over {valid share of party p, invalid share claimed by p, outsider share}, each party speaking at most twice, oracle evaluated after every delivery (so every shorter sequence is covered as a prefix); distinct = (t,n,family,#parties with a verifying share,#counted,seed set?) classes"
+	run.Rule = "for (t,n) in {(2,3),(3,4)} x contexts (round, timeout count, previous seed, verifying miner) x 6 invalid-share families: all sequences of exactly L messages over {valid share of party p, invalid share claimed by p, outsider share}, each party speaking at most twice, oracle evaluated after every delivery (so every shorter sequence is covered as a prefix); plus, for each of three parking reasons (share for a future round / previous round's seed unknown / share of a higher timeout count), all sequences of L-1 such messages with the parking-ending event before message 1..L-1, so that valid and invalid shares are parked unverified in the VRF share cache in every order relative to the round start and the on-time shares; distinct = (t,n,family,#parties with a verifying share,#counted,seed set?) classes"
 	run.Bounds["sequence_length"] = L
+	run.Bounds["parked_sequence_length"] = L - 1
+	run.Bounds["parking_reasons"] = []string{"future-round (current round = round-1, ended by SetCurrentRound)", "prev-seed-unknown (ended by SetRandomSeed on the previous round)", "higher-timeout (round one timeout behind, ended by Restart+IncrementTimeoutCount as restartRound does; contexts with timeout count 1)"}
+	run.Bounds["parking_end_positions"] = "before message 1..L-1 (position 0 = the on-time sequences)"
 	run.Bounds["tn"] = "(2,3),(3,4)"
 	run.Bounds["families"] = c33Families
 	run.Bounds["contexts"] = len(c33Contexts(2, 3)) + len(c33Contexts(3, 4))
@@ -218,23 +221,23 @@ func c33worker(run *ev.Run, L int) {
 		letters = append(letters, c33letter{-1, "O"})
 		for _, cx := range c33Contexts(d.t, d.n) {
 			// share strings of this context, made by the real share-producing path of each party
-			mkRounds := func(tc int, prev int64) (*miner.Round, *miner.Round) {
+			mkRounds := func(rn int64, tc int, prev int64, seedKnown bool) (*miner.Round, *miner.Round) {
 				m.reset()
-				pr := m.MC.CreateRound(round.NewRound(cx.Round - 1))
+				pr := m.MC.CreateRound(round.NewRound(rn - 1))
 				pr = m.MC.AddRound(pr).(*miner.Round)
-				if !m.MC.SetRandomSeed(pr, prev) {
+				if seedKnown && !m.MC.SetRandomSeed(pr, prev) {
 					ev.Fatal("cannot set previous seed")
 				}
-				mr := m.MC.CreateRound(round.NewRound(cx.Round))
+				mr := m.MC.CreateRound(round.NewRound(rn))
 				mr = m.MC.AddRound(mr).(*miner.Round)
 				if tc > 0 {
 					mr.SetTimeoutCount(tc)
 				}
-				w.Chain.VerifSetCurrentRound(cx.Round)
+				w.Chain.VerifSetCurrentRound(rn)
 				return pr, mr
 			}
-			signAll := func(tc int, prev int64) ([]string, string) {
-				_, mr := mkRounds(tc, prev)
+			signAll := func(rn int64, tc int, prev int64) ([]string, string) {
+				_, mr := mkRounds(rn, tc, prev, true)
 				msg, err := m.MC.GetBlsMessageForRound(mr.Round)
 				if err != nil {
 					ev.Fatal("bls message: %v", err)
@@ -252,11 +255,12 @@ func c33worker(run *ev.Run, L int) {
 				}
 				return out, msg
 			}
-			valid, msg := signAll(cx.TC, cx.PrevSeed)
-			otherPrev, _ := signAll(cx.TC, cx.PrevSeed+1)
-			otherTC, _ := signAll(cx.TC+1, cx.PrevSeed)
+			valid, msg := signAll(cx.Round, cx.TC, cx.PrevSeed)
+			otherPrev, _ := signAll(cx.Round, cx.TC, cx.PrevSeed+1)
+			otherTC, _ := signAll(cx.Round, cx.TC+1, cx.PrevSeed)
+			otherRound, _ := signAll(cx.Round+1, cx.TC, cx.PrevSeed)
 			for p := 0; p < d.n; p++ {
-				if !refVerify(d.pubs[p], valid[p], msg) || refVerify(d.pubs[p], otherPrev[p], msg) || refVerify(d.pubs[p], otherTC[p], msg) || refVerify(d.pubs[(p+1)%d.n], valid[p], msg) {
+				if !refVerify(d.pubs[p], valid[p], msg) || refVerify(d.pubs[p], otherPrev[p], msg) || refVerify(d.pubs[p], otherTC[p], msg) || refVerify(d.pubs[p], otherRound[p], msg) || refVerify(d.pubs[(p+1)%d.n], valid[p], msg) {
 					ev.Fatal("reference verification inconsistent for party %d in %+v", p, cx)
 				}
 			}
@@ -286,43 +290,65 @@ func c33worker(run *ev.Run, L int) {
 						return cx.TC, otherTC[l.Party]
 					case "other-tc-cached":
 						return cx.TC + 1, otherTC[l.Party]
+					case "other-round":
+						return cx.TC, otherRound[l.Party]
 					default:
 						return cx.TC, "zz" + valid[l.Party][2:]
 					}
 				}
-				seq := make([]int, L)
-				var rec func(pos int)
-				rec = func(pos int) {
-					if pos == L {
-						counter++
-						if counter%nsh != idx {
-							return
-						}
-						if so.Capped == "" && time.Now().After(deadline) {
-							so.Capped = fmt.Sprintf("worker time budget reached in %s", cx.seedKey())
-						}
-						if so.Capped != "" {
-							return
-						}
-						c33run(m, so, d, cx, fam, msg, letters, seq, shareOf, mkRounds, outsider)
-						return
-					}
-					for li, l := range letters {
-						// each speaker at most twice
-						cnt := 0
-						for _, prev := range seq[:pos] {
-							if letters[prev].Party == l.Party {
-								cnt++
-							}
-						}
-						if cnt >= 2 {
-							continue
-						}
-						seq[pos] = li
-						rec(pos + 1)
-					}
+				// reason "" = every share arrives on time (sequence length L); otherwise the node starts in
+				// a state in which shares of the target (round, timeout count) are parked unverified, and the
+				// event that ends that state happens before message number epos (sequence length L-1)
+				reasons := []string{"", "future-round", "prev-seed-unknown"}
+				if cx.TC > 0 {
+					reasons = append(reasons, "higher-timeout")
 				}
-				rec(0)
+				for _, reason := range reasons {
+					n := L
+					eposList := []int{0}
+					if reason != "" {
+						n = L - 1
+						eposList = eposList[:0]
+						for ep := 1; ep <= n; ep++ {
+							eposList = append(eposList, ep)
+						}
+					}
+					seq := make([]int, n)
+					var rec func(pos int)
+					rec = func(pos int) {
+						if pos == n {
+							for _, epos := range eposList {
+								counter++
+								if counter%nsh != idx {
+									continue
+								}
+								if so.Capped == "" && time.Now().After(deadline) {
+									so.Capped = fmt.Sprintf("worker time budget reached in %s", cx.seedKey())
+								}
+								if so.Capped != "" {
+									return
+								}
+								c33run(m, so, d, cx, fam, msg, letters, seq, shareOf, mkRounds, outsider, reason, epos)
+							}
+							return
+						}
+						for li, l := range letters {
+							// each speaker at most twice
+							cnt := 0
+							for _, prev := range seq[:pos] {
+								if letters[prev].Party == l.Party {
+									cnt++
+								}
+							}
+							if cnt >= 2 {
+								continue
+							}
+							seq[pos] = li
+							rec(pos + 1)
+						}
+					}
+					rec(0)
+				}
 			}
 		}
 	}
@@ -341,8 +367,41 @@ func outKeySign(msg string) string {
 }
 
 func c33run(m *minerWorld, so *shardOut, d *c33dkg, cx c33ctx, fam, msg string, letters []c33letter, seq []int,
-	shareOf func(c33letter) (int, string), mkRounds func(int, int64) (*miner.Round, *miner.Round), outsider *node.Node) {
-	_, mr := mkRounds(cx.TC, cx.PrevSeed)
+	shareOf func(c33letter) (int, string), mkRounds func(int64, int, int64, bool) (*miner.Round, *miner.Round), outsider *node.Node, reason string, epos int) {
+	var pr, mr *miner.Round
+	switch reason {
+	case "":
+		pr, mr = mkRounds(cx.Round, cx.TC, cx.PrevSeed, true)
+	case "future-round": // the node is still in the previous round: shares of round rn are parked by handleVRFShare
+		pr, mr = mkRounds(cx.Round, cx.TC, cx.PrevSeed, true)
+		m.W.Chain.VerifSetCurrentRound(cx.Round - 1)
+	case "prev-seed-unknown": // GetBlsMessageForRound fails: AddVRFShare parks the share
+		pr, mr = mkRounds(cx.Round, cx.TC, cx.PrevSeed, false)
+	case "higher-timeout": // the round is one timeout behind: AddVRFShare parks shares of the higher timeout count
+		pr, mr = mkRounds(cx.Round, cx.TC-1, cx.PrevSeed, true)
+	}
+	// the event that ends the parking state, done the way the production code does it
+	event := func() {
+		switch reason {
+		case "future-round": // startNextRound
+			m.MC.SetCurrentRound(cx.Round)
+			if m.MC.GetCurrentRound() != cx.Round {
+				ev.Fatal("current round not advanced")
+			}
+		case "prev-seed-unknown": // the previous round's VRF completes
+			if !m.MC.SetRandomSeed(pr, cx.PrevSeed) {
+				ev.Fatal("cannot set previous seed (event)")
+			}
+		case "higher-timeout": // restartRound: Restart, then IncrementTimeoutCount
+			if err := mr.Restart(); err != nil {
+				ev.Fatal("round restart: %v", err)
+			}
+			mr.IncrementTimeoutCount(cx.PrevSeed, m.MC.GetMiners(cx.Round))
+			if mr.GetTimeoutCount() != cx.TC {
+				ev.Fatal("timeout count %d after restart, want %d", mr.GetTimeoutCount(), cx.TC)
+			}
+		}
+	}
 	defer mr.CancelVerification()
 	so.States++
 	names := make([]string, len(seq))
@@ -351,11 +410,16 @@ func c33run(m *minerWorld, so *shardOut, d *c33dkg, cx c33ctx, fam, msg string, 
 	}
 	replay := func(step int) map[string]any {
 		return map[string]any{"t": d.t, "n": d.n, "round": cx.Round, "timeout_count": cx.TC, "previous_seed": cx.PrevSeed, "verifying_miner": cx.Self,
-			"invalid_family": fam, "outsider_share": c33Outsider[fam], "sequence": names, "failing_step": step}
+			"invalid_family": fam, "outsider_share": c33Outsider[fam], "sequence": names, "failing_step": step,
+			"parking_reason": reason, "parking_ends_before_message": epos}
 	}
 	validParties := map[int]bool{}
 	seedSeen := int64(0)
 	for step, li := range seq {
+		if reason != "" && step == epos {
+			event()
+			so.Transitions++
+		}
 		l := letters[li]
 		tcLabel, share := shareOf(l)
 		party := outsider
@@ -405,7 +469,14 @@ func c33run(m *minerWorld, so *shardOut, d *c33dkg, cx c33ctx, fam, msg string, 
 			}
 			seedSeen = seed
 		}
-		so.Outcomes[fmt.Sprintf("t=%d n=%d/%s/verifying-parties=%d/counted=%d/cached=%d/seed=%v", d.t, d.n, fam, len(validParties), len(counted), len(mr.VerifCachedVRFShares()), seed != 0)]++
+		phase := "on-time"
+		if reason != "" {
+			phase = reason + ":parked"
+			if step >= epos {
+				phase = reason + ":after"
+			}
+		}
+		so.Outcomes[fmt.Sprintf("%s/t=%d n=%d/%s/verifying-parties=%d/counted=%d/cached=%d/seed=%v", phase, d.t, d.n, fam, len(validParties), len(counted), len(mr.VerifCachedVRFShares()), seed != 0)]++
 	}
 	if so.States%997 == 1 {
 		so.sample(map[string]any{"context": cx.seedKey(), "family": fam, "sequence": strings.Join(names, " "), "seed": seedSeen})
